@@ -107,7 +107,7 @@ class StepSolver(abc.ABC):
 
         try:
             rcond = estimator.estimate_rcond()
-        except LinearSolverError:
+        except (LinearSolverError, ArithmeticError, ValueError):
             pass
 
         return rcond
